@@ -104,6 +104,8 @@ def run_session_check(ctx, prop, n_quick=200, n_thorough=3000, maxops=30):
     ctx.assumptions += ["events are separated by quiescence (one miner or pool event at a time; pools answer submits at once)",
                         "destination-map iteration order: cases whose outcome depends on it are recognised and judged by neither model nor monitor",
                         "Go >= 1.23 timer semantics inside synctest"]
+    if prop == "C03":
+        L.regen(ctx, ["C03"])
     L.prove(ctx)
     if not L.build_driver(ctx):
         return []
